@@ -335,8 +335,14 @@ def hooked_subclass(api):
                 return None
             return identifier
 
-        _HOOKED[api.Converter] = type("HookedConverter", (api.Converter,), {"standardize_identifier": standardize_identifier})
-    return _HOOKED[api.Converter]
+        direct = type("HookedConverter", (api.Converter,), {"standardize_identifier": standardize_identifier})
+        # the hook may also be inherited: from a customised parent class, or from a mixin listed before Converter
+        grandchild = type("ProjectConverter", (direct,), {"__doc__": "inherits the customised hook from its parent"})
+        mixin = type("NumericMixin", (), {"standardize_identifier": standardize_identifier})
+        mixed = type("MixedConverter", (mixin, api.Converter), {})
+        _HOOKED[api.Converter] = [direct, grandchild, mixed]
+    _HOOKED["n"] = _HOOKED.get("n", 0) + 1
+    return _HOOKED[api.Converter][_HOOKED["n"] % 3]
 
 
 class Weird(str):
@@ -356,6 +362,19 @@ class Str(str):
     """A str subclass (like a str-valued enum member or a token type of the user's): still a string."""
 
     __slots__ = ()
+
+
+def own_constructor_subclass(api):
+    """A user subclass whose constructor has a meaning of its own (it takes a registry dictionary, not records) and
+    that overrides nothing else: still a converter like any other for everything that is done *with* it."""
+    if ("own-ctor", api.Converter) not in _SUBCLASS:
+        def __init__(self, registry, *, delimiter=":"):
+            recs = [api.Record(prefix=k, uri_prefix=v["uri_prefix"], prefix_synonyms=list(v.get("psyn", ())),
+                               uri_prefix_synonyms=list(v.get("usyn", ())), pattern=v.get("pattern")) for k, v in registry.items()]
+            api.Converter.__init__(self, recs, delimiter=delimiter)
+
+        _SUBCLASS[("own-ctor", api.Converter)] = type("RegistryConverter", (api.Converter,), {"__init__": __init__})
+    return _SUBCLASS[("own-ctor", api.Converter)]
 
 
 def _shallow_copy_probe(api, original, d):
@@ -411,8 +430,14 @@ def _circumstance(api, c, delimiter, rng, how):
                 return c, how
             elif r < 0.18:
                 c2, tag = pickle.loads(pickle.dumps(c)), "pickled"
-            else:
+            elif r < 0.23:
                 c2, tag = plain_subclass(api)([copy.deepcopy(x) for x in c.records], delimiter=delimiter), "user-subclass"
+            else:
+                snap = spec.snapshot(c)
+                if len({x.prefix for x in snap}) != len(snap):
+                    return c, how
+                reg = {x.prefix: {"uri_prefix": x.uri_prefix, "psyn": x.psyn, "usyn": x.usyn, "pattern": x.pattern} for x in snap}
+                c2, tag = own_constructor_subclass(api)(reg, delimiter=delimiter), "user-subclass-with-its-own-constructor"
         except RecursionError:  # the trie nests one node per character: very long URI prefixes cannot be copied today
             probe.S.counters["wl:circumstance:copy-hit-recursion-limit"] += 1
             return c, how
@@ -420,7 +445,7 @@ def _circumstance(api, c, delimiter, rng, how):
             # an implementation that does not support this kind of copy at all: the circumstance does not exist there
             probe.S.counters[f"wl:circumstance:not-supported:{type(e).__name__}"] += 1
             return c, how
-        if tag != "user-subclass" and delimiter not in ORIG_PREFIX:
+        if not tag.startswith("user-subclass") and delimiter not in ORIG_PREFIX:
             # the original lives on and grows: nothing of that may show in the copy (asked through gen.query_strings)
             try:
                 c.add_prefix(ORIG_PREFIX, ORIG_URI)
